@@ -2,6 +2,7 @@
 #include "prng.h"
 #include "simsched.h"
 
+#include <algorithm>
 #include <atomic>
 #include <csignal>
 #include <cstdio>
@@ -12,6 +13,7 @@
 #include <execinfo.h>
 #include <istream>
 #include <unistd.h>
+#include <vector>
 
 namespace sim {
 
@@ -22,20 +24,67 @@ thread_local int64_t t_live = 0; // bytes allocated minus bytes freed by this th
 std::atomic<uint64_t> g_live{0}, g_count{0}, g_fill_seed{0x5eed};
 char g_crash_ctx[512] = "";
 
+bool in_parameter_values(); // the stack passes through the readers of a parameter's value matrix
 void note_site(BudgetState &b) {
     b.armed = false; // no recursion through the allocator seam while we symbolise
     std::string s = outermost_ezc3d_fn();
     // heap trips (plain/g++ build only) also name the innermost library function: an allocation driven by a length field
     // (readString) is another defect than one driven by dimensions or header counts
-    if (std::strcmp(b.kind, "heap") == 0) s += "/" + innermost_ezc3d_fn();
+    if (std::strncmp(b.kind, "heap", 4) == 0) s += "/" + innermost_ezc3d_fn();
+    else if (s == "ezc3d::ParametersNS::Parameters::Parameters" && !in_parameter_values()) s += "/outside-parameter-values";
     std::snprintf(b.site, sizeof b.site, "%s", s.c_str());
 }
 } // namespace
 
 BudgetState &budget_state() { return t_budget; }
 
+namespace {
+thread_local int (*t_phase_fn)() = nullptr;
+thread_local ClaimedCounts (*t_claim_fn)() = nullptr;
+}
+void budget_set_probes(int (*phase_fn)(), ClaimedCounts (*claim_fn)()) { t_phase_fn = phase_fn; t_claim_fn = claim_fn; }
+
+// called by the read seam before it counts a read
+void budget_note_phase(BudgetState &b) {
+    if (!b.in_data && t_phase_fn && t_phase_fn() == 1) { b.in_data = true; b.reads_at_data = b.reads; b.bytes_at_data = b.bytes; }
+}
+
+// A budget is exceeded. Returns true if the load may go on (trip explained by the counts the file claims and the
+// enlarged budget is affordable); otherwise marks the state tripped and the caller throws.
+bool budget_trip(BudgetState &b, const char *kind) {
+    static const char *BEYOND[] = {"reads-beyond-claimed-counts", "bytes-beyond-claimed-counts", "heap-beyond-claimed-counts"};
+    int ki = std::strcmp(kind, "reads") == 0 ? 0 : std::strcmp(kind, "bytes") == 0 ? 1 : 2;
+    bool armed = b.armed;
+    b.armed = false;
+    if (b.in_data && t_claim_fn) {
+        if (b.soft) { // already running on the enlarged budget
+            b.tripped = true; b.kind = BEYOND[ki]; note_site(b); return false;
+        }
+        ClaimedCounts cc = t_claim_fn();
+        const uint64_t CAP = 1ull << 40;
+        uint64_t claimed = std::min(cc.values, CAP), objects = std::min(cc.objects, CAP);
+        b.claimed_values = claimed;
+        uint64_t nr = b.reads_at_data + claimed + 1 + 16;
+        uint64_t nb = b.bytes_at_data + 4 * claimed + 1 + 64;
+        uint64_t nh = 512 * b.file_size + (1u << 20) + 1024 * objects; // a named point / channel and its share of the containers, copied once on the way in
+        bool explained = ki == 0 ? nr > b.max_reads : ki == 1 ? nb > b.max_bytes : nh > b.max_heap;
+        if (!explained) { b.tripped = true; b.kind = BEYOND[ki]; note_site(b); return false; }
+        bool affordable = nr <= 8 * (2 * b.file_size + 1024) && nh <= (1ull << 28);
+        if (affordable) {
+            b.soft = true; b.soft_kind = kind; b.kind = kind; note_site(b);
+            std::memcpy(b.soft_site, b.site, sizeof b.soft_site);
+            b.max_reads = std::max(b.max_reads, nr); b.max_bytes = std::max(b.max_bytes, nb); b.max_heap = std::max(b.max_heap, nh);
+            b.armed = armed;
+            return true;
+        }
+    }
+    b.tripped = true; b.kind = kind; note_site(b);
+    return false;
+}
+
 void budget_arm(uint64_t S) {
     t_budget = BudgetState();
+    t_budget.file_size = S;
     t_budget.max_reads = 2 * S + 1024;
     t_budget.max_bytes = 4 * S + 65536;
     t_budget.max_heap = 512 * S + (1u << 20);
@@ -52,10 +101,12 @@ uint64_t seam_read_calls() { return t_reads; }
 uint64_t seam_read_bytes() { return t_rbytes; }
 void seam_reset_counters() { t_reads = 0; t_rbytes = 0; }
 
-static std::string ezc3d_fn(bool outermost) {
+// demangled names (no arguments) of the frames of the current call stack that are members of ezc3d, innermost first,
+// up to but not including the c3d constructor
+static std::vector<std::string> ezc3d_stack() {
     void *frames[96];
     int n = backtrace(frames, 96);
-    std::string found = "?";
+    std::vector<std::string> out;
     for (int i = 0; i < n; ++i) {
         Dl_info info;
         if (!dladdr(frames[i], &info) || !info.dli_sname) continue;
@@ -69,11 +120,22 @@ static std::string ezc3d_fn(bool outermost) {
         if (name.find(' ') != std::string::npos) continue; // "ezc3d::T* std::helper<...>": a std:: template that merely returns a library type
         p = name.find('[');
         if (p != std::string::npos) name.resize(p);
-        if (!outermost) return name;
-        if (name == "ezc3d::c3d::c3d") break;
-        found = name;
+        if (name == "ezc3d::c3d::c3d" && !out.empty()) break;
+        out.push_back(name);
     }
-    return found;
+    return out;
+}
+static std::string ezc3d_fn(bool outermost) {
+    std::vector<std::string> st = ezc3d_stack();
+    if (st.empty()) return "?";
+    return outermost ? st.back() : st.front();
+}
+namespace {
+bool in_parameter_values() {
+    for (const std::string &f : ezc3d_stack())
+        if (f.find("readParam") != std::string::npos || f.find("eadMatrix") != std::string::npos) return true;
+    return false;
+}
 }
 std::string innermost_ezc3d_fn() { return ezc3d_fn(false); }
 // the section reader (Header / Parameters / Data constructor ...) the load is in: stable across compilers and inlining
@@ -154,9 +216,8 @@ inline void *sim_alloc(size_t size, bool nothrow) {
     if (b.armed) {
         uint64_t live = static_cast<uint64_t>(sim::t_live > 0 ? sim::t_live : 0);
         uint64_t above = live > b.heap_base ? live - b.heap_base : 0;
-        if (above + size > b.max_heap) {
-            b.tripped = true; b.kind = "heap";
-            sim::note_site(b);
+        while (above + size > b.max_heap) {
+            if (sim::budget_trip(b, "heap")) continue; // explained by the counts the file claims: budget enlarged once
             if (nothrow) return nullptr;
             throw sim::HeapBudgetExceeded();
         }
@@ -206,10 +267,11 @@ extern "C" std::istream *__wrap__ZNSi4readEPcl(std::istream *self, char *s, long
     sim::t_rbytes += static_cast<uint64_t>(n > 0 ? n : 0);
     sim::BudgetState &b = sim::budget_state();
     if (b.armed) {
+        sim::budget_note_phase(b);
         b.reads++;
         b.bytes += static_cast<uint64_t>(n > 0 ? n : 0);
-        if (b.reads > b.max_reads) { b.tripped = true; b.kind = "reads"; sim::note_site(b); throw sim::ReadBudgetExceeded{"reads"}; }
-        if (b.bytes > b.max_bytes) { b.tripped = true; b.kind = "bytes"; sim::note_site(b); throw sim::ReadBudgetExceeded{"bytes"}; }
+        if (b.reads > b.max_reads && !sim::budget_trip(b, "reads")) throw sim::ReadBudgetExceeded{"reads"};
+        if (b.bytes > b.max_bytes && !sim::budget_trip(b, "bytes")) throw sim::ReadBudgetExceeded{"bytes"};
     }
     sim::yield_point(sim::Y_READ_PRE);
     std::istream *r = __real__ZNSi4readEPcl(self, s, n);
@@ -223,10 +285,11 @@ extern "C" long __wrap__ZNSi8readsomeEPcl(std::istream *self, char *s, long n) {
     sim::t_rbytes += static_cast<uint64_t>(n > 0 ? n : 0);
     sim::BudgetState &b = sim::budget_state();
     if (b.armed) {
+        sim::budget_note_phase(b);
         b.reads++;
         b.bytes += static_cast<uint64_t>(n > 0 ? n : 0);
-        if (b.reads > b.max_reads) { b.tripped = true; b.kind = "reads"; sim::note_site(b); throw sim::ReadBudgetExceeded{"reads"}; }
-        if (b.bytes > b.max_bytes) { b.tripped = true; b.kind = "bytes"; sim::note_site(b); throw sim::ReadBudgetExceeded{"bytes"}; }
+        if (b.reads > b.max_reads && !sim::budget_trip(b, "reads")) throw sim::ReadBudgetExceeded{"reads"};
+        if (b.bytes > b.max_bytes && !sim::budget_trip(b, "bytes")) throw sim::ReadBudgetExceeded{"bytes"};
     }
     sim::yield_point(sim::Y_READ_PRE);
     long r = __real__ZNSi8readsomeEPcl(self, s, n);
